@@ -975,3 +975,125 @@ PROPS["C20"] = dict(lean=["ChfVerif.Props.C20"], explore=explore_c20, gen=[gen_t
                     trusted=["govalidator semantics (required/optional recursion) and yaml.v2 are modelled",
                              "NRF registration and the FTP (CGF) server are not started (cgf.enable=false); MongoDB is the in-memory stand-in",
                              "which sections the start-up code dereferences is hand-modelled (startsOK) and validated by starting every accepted variant"])
+
+
+# ------------------------------------------------------------------ BER  (C04, C05, C16)
+
+def _ber_run(ctx, res, replay_ops, n):
+    r = ctx.stream("ber", n, ops=replay_ops)
+    for i, (op, im, mo) in enumerate(zip(r.ops, r.impl, r.model)):
+        if im != mo:
+            res.disagreements += 1
+            res.violation("correspondence", "ber: model and implementation differ", [op[:20000], "# impl:  " + im[:3000], "# model: " + mo[:3000]],
+                          found_input=False)
+            break
+    return r
+
+
+def _ty_class(ty):
+    return {"C": "choice", "S": "struct", "L": "list", "W": "wrapper", "P": "pointer"}.get(ty[0], "primitive")
+
+
+def explore_c04(ctx, res, replay_ops=None):
+    r = _ber_run(ctx, res, replay_ops, n_for(ctx, 300, 3000))
+    q, qi = [], []
+    for i, (op, im) in enumerate(zip(r.ops, r.impl)):
+        t = op.split(" ")
+        if t[1] not in ("R", "M"):
+            continue
+        res.evaluations += 1
+        res.dist[_ty_class(t[2])] += 1
+        it = im.split(" ")
+        if it[0] in ("panic", "timeout"):
+            res.violation("oracle", "C04: marshalling panicked", [op[:20000], "# impl: " + im[:200]])
+            continue
+        if it[0] == "err":
+            res.dist["marshal-error"] += 1
+            continue
+        res.nontrivial.add(op)
+        if len(res.samples) < 5 and len(op) < 400:
+            res.sample({"op": op, "bytes": it[1]})
+        arg = t[4] if len(t) > 4 else ""
+        q.append("ber wf " + it[1])
+        q.append("ber spec %s %s %s" % (t[2], t[3], arg))
+        qi.append(i)
+    out = core.driver_run(q) if q else []
+    for k, i in enumerate(qi):
+        wf, sp = out[2 * k], out[2 * k + 1]
+        im = r.impl[i].split(" ")
+        res.traces_validated += 1
+        if wf != "ok":
+            res.violation("oracle", "C04: the marshalled octets are not one well-formed X.690 element (%s)" % wf,
+                          [r.ops[i][:20000], "# impl: " + r.impl[i][:3000]])
+        if sp != "ok " + im[1]:
+            res.violation("oracle", "C04: the marshalled octets differ from the reference X.690 encoder",
+                          [r.ops[i][:20000], "# impl:      " + r.impl[i][:3000], "# reference: " + sp[:3000]])
+    res.rule = ("type-directed random values of all 195 cdrType types (optional members toggled at 0/30/70/100%, every CHOICE alternative, "
+                "lists of 0-3 elements, boundary integers, strings/octets of length 0..9 and (thorough) 126..257, 1000), the CHF record with "
+                "'explicit,choice', primitives with top-level parameters (tags 0/30/31/128/2^21-1, explicit, string kinds) and generated "
+                "struct/choice/list types in the same tag language (distinct tags per struct, high-tag bases, explicit, set); each marshalled "
+                "value is checked by the Lean X.690 walker and against the Lean reference encoder; non-trivial = successful marshal")
+
+
+def explore_c05(ctx, res, replay_ops=None):
+    r = _ber_run(ctx, res, replay_ops, n_for(ctx, 300, 3000))
+    for i, (op, im) in enumerate(zip(r.ops, r.impl)):
+        t = op.split(" ")
+        if t[1] != "R":
+            continue
+        res.evaluations += 1
+        res.dist[_ty_class(t[2])] += 1
+        it = im.split(" ")
+        if it[0] in ("panic", "timeout"):
+            res.violation("oracle", "C05: marshal/unmarshal panicked", [op[:20000], "# impl: " + im[:200]])
+            continue
+        if it[0] == "err":
+            # constructs the codec does not support must be *reported*: OID or open type somewhere in the type
+            res.dist["marshal-error"] += 1
+            if "O" not in t[2] and "C[]" not in t[2] and "{0,-,0,0,1" not in t[2] and "cN" not in (t[4] if len(t) > 4 else ""):
+                v = t[4] if len(t) > 4 else ""
+                if not re.search(r"c0\[|;N|\[N", v):
+                    res.violation("oracle", "C05: a value of a supported type failed to marshal", [op[:20000], "# impl: " + im[:200]])
+            continue
+        res.traces_validated += 1
+        res.nontrivial.add(op)
+        arg = t[4] if len(t) > 4 else ""
+        if len(it) < 4 or it[2] != "ok":
+            res.violation("oracle", "C05: the marshalled octets could not be unmarshalled into the same type", [op[:20000], "# impl: " + im[:3000]])
+        elif it[3] != arg:
+            res.violation("oracle", "C05: decode(encode(v)) differs from v", [op[:20000], "# impl: " + im[:3000]])
+        elif len(res.samples) < 5 and len(op) < 400:
+            res.sample({"op": op, "impl": im})
+    res.rule = ("same value generator as C04; each marshalled value is unmarshalled into a fresh variable of the same type with the same "
+                "parameters and compared structurally (nil pointers, nil vs empty lists distinguished); all 26 boundary integers; "
+                "non-trivial = value that marshals")
+
+
+def explore_c16(ctx, res, replay_ops=None):
+    r = _ber_run(ctx, res, replay_ops, n_for(ctx, 400, 5000))
+    for i, (op, im) in enumerate(zip(r.ops, r.impl)):
+        t = op.split(" ")
+        if t[1] != "U":
+            continue
+        res.evaluations += 1
+        arg = t[4] if len(t) > 4 else ""
+        res.dist["len=%s" % (len(arg) // 2 if len(arg) < 8 else "4+")] += 1
+        it = im.split(" ")
+        res.dist["outcome:" + it[0]] += 1
+        res.traces_validated += 1
+        if it[0] not in ("ok", "err"):
+            res.violation("oracle", "C16: Unmarshal %s on arbitrary octets" % it[0], [op[:20000], "# impl: " + im[:200]])
+        res.nontrivial.add(op)
+        if len(res.samples) < 6 and len(op) < 300:
+            res.sample({"op": op, "impl": im[:120]})
+    res.rule = ("octet strings decoded under recover() with a 10 s deadline: the empty string, every 1-octet and a lattice of 2-octet "
+                "strings into 7 primitive targets (thorough: all 1- and a finer lattice of 2-octet strings), and truncations, single-bit flips, "
+                "rewritten length octets (00,7f,80,81,82,83,84,ff), appended octets, deletions and random strings against valid encodings of "
+                "schema types; outcome class compared with the Lean decoder model (ok value / error / panic)")
+
+
+_ber_trust = ["Go reflect, and the table emitter classifying struct types (Value/List/Present conventions) in harness/cmd/ber.go",
+              "Spec/X690.lean is my transcription of X.690 (no copy of the standard in the sandbox)"]
+PROPS["C04"] = dict(lean=["ChfVerif.Props.C04"], explore=explore_c04, gen=[gen_table("schema", "Schema.lean")], trusted=_ber_trust)
+PROPS["C05"] = dict(lean=["ChfVerif.Props.C05"], explore=explore_c05, gen=[gen_table("schema", "Schema.lean")], trusted=_ber_trust)
+PROPS["C16"] = dict(lean=["ChfVerif.Props.C16"], explore=explore_c16, trusted=_ber_trust)
